@@ -242,7 +242,13 @@ fn random_pv(rng: &mut Rng, depth: usize) -> PV {
 const OPS: [&str; 6] = ["==", "!=", "<", "<=", ">", ">="];
 
 /// The six results for (x OP y): Some(bool) / None (null) per operator.
-fn six(rep: &mut Report, exprs: &[jmespath::Expression<'_>; 6], literal: bool, x: &PV, y: &PV) -> Option<[Option<bool>; 6]> {
+/// Operand forms. 0: two members of the document; 1: two literals; 2: the same
+/// member named twice (`l OP l`); 3: the current node twice (`@ OP @`); 4: two
+/// members that share one reference-counted value. Forms 2-4 make both operands
+/// the very same node, where an identity shortcut would answer before looking
+/// at the operator or the types.
+fn six(rep: &mut Report, exprs: &[jmespath::Expression<'_>; 6], form: u8, x: &PV, y: &PV) -> Option<[Option<bool>; 6]> {
+    let literal = form == 1;
     let mut out = [None; 6];
     let doc = if literal {
         Value::Null
@@ -255,6 +261,19 @@ fn six(rep: &mut Report, exprs: &[jmespath::Expression<'_>; 6], literal: bool, x
         let res = if literal {
             let text = format!("`{}` {} `{}`", x.text().replace('`', "\\`"), op, y.text().replace('`', "\\`"));
             guarded(|| jmespath::compile(&text).and_then(|e| e.search(())))
+        } else if form == 2 {
+            let input = rcvar_of(&doc);
+            guarded(|| jmespath::compile(&format!("l {} l", op)).and_then(|e| e.search(&input)))
+        } else if form == 3 {
+            let input = rcvar_of(&doc["l"]);
+            guarded(|| jmespath::compile(&format!("@ {} @", op)).and_then(|e| e.search(&input)))
+        } else if form == 4 {
+            let shared = rcvar_of(&doc["l"]);
+            let mut m = std::collections::BTreeMap::new();
+            m.insert("l".to_string(), shared.clone());
+            m.insert("r".to_string(), shared);
+            let input = jmespath::Rcvar::new(jmespath::Variable::Object(m));
+            guarded(|| exprs[k].search(&input))
         } else {
             let input = rcvar_of(&doc);
             guarded(|| exprs[k].search(&input))
@@ -304,10 +323,15 @@ pub fn run(args: &Args) {
             if pair_index % args.shards != args.shard {
                 continue;
             }
-            for literal in [false, true] {
+            let forms: &[u8] = if i == j { &[0, 1, 2, 3, 4] } else { &[0, 1] };
+            for &form in forms {
+                let literal = form == 1;
                 let (x, y) = (&pool[i], &pool[j]);
-                let xy = six(&mut rep, &exprs, literal, x, y);
-                let yx = six(&mut rep, &exprs, literal, y, x);
+                let xy = six(&mut rep, &exprs, form, x, y);
+                let yx = six(&mut rep, &exprs, form, y, x);
+                if form >= 2 {
+                    rep.count("same_node_operand_pairs");
+                }
                 let (xy, yx) = match (xy, yx) {
                     (Some(a), Some(b)) => (a, b),
                     _ => continue,
